@@ -1,5 +1,9 @@
 mod fmt;
 mod gen;
+#[cfg(feature = "miniwasm")]
+mod proto;
+#[cfg(feature = "miniwasm")]
+mod proto_registry;
 mod run;
 mod world;
 
@@ -73,6 +77,13 @@ fn main() {
             fs::write(format!("{prefix}.world"), &wobs).expect("write world obs");
             let out = run::run_file(&ops);
             fs::write(format!("{prefix}.impl"), out).expect("write obs");
+        }
+        // mwh proto <ops> <obs>: prost round trips of the initia-proto bindings (miniwasm build only)
+        #[cfg(feature = "miniwasm")]
+        Some("proto") => {
+            let input = fs::read_to_string(&args[2]).expect("read ops");
+            let out = proto::run_file(&input);
+            fs::write(&args[3], out).expect("write obs");
         }
         _ => {
             eprintln!("usage: mwh run <ops> <obs> | mwh world <backend> <seed> <n> <len> <prefix>");
